@@ -21,23 +21,21 @@ FP = z3.Float64()
 RNE = z3.RNE()
 
 
-_qcache = {}
-
-
-def has_quantifier(z):
+def has_quantifier(z, _memo=None):
+    """Does the term contain a quantifier?  (memo is per call: z3 AST ids are reused after GC)"""
     if not z3.is_expr(z):
         return False
+    if _memo is None:
+        _memo = {}
     key = z.get_id()
-    r = _qcache.get(key)
+    r = _memo.get(key)
     if r is not None:
         return r
     if z3.is_quantifier(z):
         r = True
     else:
-        r = any(has_quantifier(c) for c in z.children())
-    if len(_qcache) > 200000:
-        _qcache.clear()
-    _qcache[key] = r
+        r = any(has_quantifier(c, _memo) for c in z.children())
+    _memo[key] = r
     return r
 
 
@@ -203,6 +201,7 @@ class Ctx:
         self.solver.set("timeout", timeout_ms)
         self.solver.set("random_seed", engine.seed)
         self.timeout_ms = timeout_ms
+        self.branch_timeout_ms = 1500
         self.pc = []
         self.qfacts = []
         self.seq_lens = []
@@ -248,9 +247,15 @@ class Ctx:
             self.assume_log[-1].append(z)
 
     def _check(self, *extra):
+        """Branch-feasibility query: short budget; `unknown` counts as feasible (sound: the path is
+        explored and its obligations checked with the full budget)."""
         import time
         t0 = time.time()
-        r = self.solver.check(*extra)
+        self.solver.set("timeout", self.branch_timeout_ms)
+        try:
+            r = self.solver.check(*extra)
+        finally:
+            self.solver.set("timeout", self.timeout_ms)
         self.solver_time += time.time() - t0
         return r
 
